@@ -152,6 +152,11 @@ func init() {
 	harnessAPI["vFail"] = func(m *Machine, fr *frame, fn *ssa.Function, args []value) value {
 		panic(pathEnd{kind: "fail", msg: concStrArg(args[0]), site: fr.stack()})
 	}
+	// vUnproved ends the path as "not decided": a lead the harness could not turn into an input-level
+	// counterexample (the run becomes inconclusive, never a violation)
+	harnessAPI["vUnproved"] = func(m *Machine, fr *frame, fn *ssa.Function, args []value) value {
+		panic(pathEnd{kind: "unproved", msg: concStrArg(args[0]), site: fr.stack()})
+	}
 	harnessAPI["vReach"] = func(m *Machine, fr *frame, fn *ssa.Function, args []value) value {
 		m.reach[concStrArg(args[0])]++
 		return nil
